@@ -71,7 +71,7 @@ func objectFamily(rng *rand.Rand) poolCase {
 	o := V("o")
 	body := []Stmt{asg(o, src)}
 	for i := 2 + rng.IntN(4); i > 0; i-- {
-		switch rng.IntN(8) {
+		switch rng.IntN(9) {
 		case 0:
 			body = append(body, Pr(o))
 		case 1:
@@ -86,6 +86,19 @@ func objectFamily(rng *rand.Rand) poolCase {
 			body = append(body, Pr(Arr(o, obj1("wrapped", o))))
 		case 6:
 			body = append(body, Pr(Meth(o, "pluck", S(lit.Keys[0]), S(lit.Keys[len(lit.Keys)-1]), S("zz")), Meth(o, "length")))
+		case 7:
+			// an object literal whose values have effects: they are evaluated in the order written
+			lit2 := &ObjectLit{}
+			for j, k := range []string{"id", "seq", "again", "zz"}[:2+rng.IntN(3)] {
+				lit2.Keys = append(lit2.Keys, k)
+				lit2.Quoted = append(lit2.Quoted, false)
+				if j%2 == 0 {
+					lit2.Vals = append(lit2.Vals, &IncDec{Op: "++", X: V("cnt")})
+				} else {
+					lit2.Vals = append(lit2.Vals, Meth(V("stack"), "pop"))
+				}
+			}
+			body = append(body, asg(V("stack"), Arr(N("1"), N("2"), N("3"), N("4"))), Pr(jsonOf(lit2), V("cnt"), jsonOf(V("stack"))))
 		default:
 			body = append(body, asg(V("acc"), S("")), &ForIn{V: "k", It: o, Body: Blk(asg(V("acc"), Bin("+", Bin("+", V("acc"), V("k")), S(","))))}, Pr(V("acc")))
 		}
@@ -110,6 +123,9 @@ var c10Disturbers = []string{
 	"BEGIN { match (null) { t => { t += 5; t = 'poisoned' } } match (true) { s => { s = 'no' } } match (false) { f => { f++ } } x = 0; match (x) { z => { z = 9 } } print 'd' }",
 	"BEGIN { x = true; x++; y = null; y.k = 1; n = 5; n++; print x, n } { $ = null } END { print null, true, false, 0, 1, '' }",
 	"function m(v) { v.seen = 1; return v } BEGIN { print m({}), m([]) , 1 is number, null is null }",
+	"BEGIN { printf('partial text %s and %d', 'x', 1) }",
+	"BEGIN { printf('%s|%5f|', 'abc', 2); printf('tail %v %q', [1]) }",
+	"{ printf('%s=%s;', $.b, $.zz) }",
 }
 
 func c10Pool(rng *rand.Rand) poolCase {
